@@ -37,7 +37,7 @@ def plan(tier, seed):
                      dict(n=3, m=2, labels='mixed_strings', schemes='one_b', configs='solver', **nr),
                      dict(n=2, m=3, labels='ints_rev', schemes='one', configs='solver', **nr),
                      dict(n=1, m=2, labels='ints', schemes='two', configs='all'),
-                     dict(n=4, m=2, labels='ints', schemes='one_b', configs='cplex', per=60),
+                     dict(n=4, m=2, labels='ints', schemes='one_b', configs='cplex', per=60, flags='one'),
                      dict(space='ext43', labels='mixed_strings', schemes='ext1', configs='decomp', per=300)],
         }
     else:
@@ -154,7 +154,8 @@ def oracle(ctx, info):
 
 def run_shard(sh):
     ctx = Ctx(ID)
-    cross.run_block(ctx, sh, _lib['mode'], _lib[sh['configs']], oracle)
+    cross.run_block(ctx, sh, _lib['mode'], _lib[sh['configs']], oracle,
+                    flags=(True,) if sh.get('flags') == 'one' else (True, False))
     return ctx.result()
 
 
